@@ -104,14 +104,17 @@ class PerCPUVar(Sequence):
         self.instance = instance
 
     def __len__(self):
-        return self.descriptor.map.cpu_no
+        return self.reader.cpu_no
+
+    @property
+    def reader(self):
+        return getattr(self.instance.ebpf, self.descriptor.map.name)
 
     def __getitem__(self, key):
         if 0 <= key < len(self):
+            reader = self.reader
             return self.descriptor.unpack(
-                self.instance,
-                getattr(self.instance.ebpf, self.descriptor.map.name)
-                .data[key * self.descriptor.map.size:])
+                self.instance, reader.data[key * reader.size:])
         else:
             raise IndexError(f"no such CPU #{key}")
 
@@ -188,10 +191,13 @@ class PerCPUReader:
         self.map = map
         self.fd = fd
         self.data = None
+        # the map descriptor is shared by all instances of a program class
+        self.size = map.size
+        self.cpu_no = map.cpu_no
 
     def read(self):
         self.data = memoryview(lookup_elem(self.fd, bytes(4),
-                               self.map.size * self.map.cpu_no))
+                               self.size * self.cpu_no))
 
 
 class PerCPUArrayMap(ArrayMap):
